@@ -33,7 +33,8 @@ THEOREMS = ["twosum", "fast_twosum", "twosum_fix_overflow", "fast2sum_fix_overfl
             "fast_fix_checks", "fast2sum_fix_total_f16", "fast2sum_fix_total_f32", "fast2sum_fix_total_f64",
             "dekker_fix_checks", "lmax32", "lmax64", "dekker_fix_total_f32", "dekker_fix_total_f64",
             "utils_dekker_checks", "utils_dekker_total_f32", "utils_dekker_total_f64", "utils_square_total_f32", "utils_square_total_f64",
-            "apmath_two_sum_total_f16", "apmath_quick_two_sum_total_f16", "alg_add_2sum_total_f16", "alg_add_2sum_fast_total_f16", "apmath_two_sum_total_f32", "apmath_quick_two_sum_total_f32", "alg_add_2sum_total_f32", "alg_add_2sum_fast_total_f32", "apmath_two_sum_total_f64", "apmath_quick_two_sum_total_f64", "alg_add_2sum_total_f64", "alg_add_2sum_fast_total_f64", "apmath_two_prod_total_f32", "alg_square_total_f32", "apmath_two_prod_total_f64", "alg_square_total_f64"]
+            "apmath_two_sum_total_f16", "apmath_quick_two_sum_total_f16", "alg_add_2sum_total_f16", "alg_add_2sum_fast_total_f16", "apmath_two_sum_total_f32", "apmath_quick_two_sum_total_f32", "alg_add_2sum_total_f32", "alg_add_2sum_fast_total_f32", "apmath_two_sum_total_f64", "apmath_quick_two_sum_total_f64", "alg_add_2sum_total_f64", "alg_add_2sum_fast_total_f64", "apmath_two_prod_total_f32", "alg_square_total_f32", "apmath_two_prod_total_f64", "alg_square_total_f64",
+            "utils_split_checks", "utils_split_total_f16", "alg_split_total_f16", "utils_split_total_f32", "alg_split_total_f32", "utils_split_total_f64", "alg_split_total_f64"]
 SEARCHED = ["Veltkamp splitter x = xh + xl and half-significand bit bounds (all variants, scale on/off; subnormal inputs)",
             "Dekker product h + l = x*y (all variants; scale=True, fix_overflow, apmath two_prod/split, algorithms.py copies are search-only)", "fix_overflow fallbacks", "float64/float32/float16 machine arithmetic = round-to-nearest (Soft vs NumPy)"]
 TRUSTED = [
@@ -289,7 +290,7 @@ def run(ctx):
     ctx.rule = ("per (variant, dtype): directed finite operand tuples (ties, half-significand boundaries, subnormal binades, overflow edge, the float32 "
                 "13-bit sliver); non-trivial = inside the documented domain with a non-zero low word; distinct by (variant, dtype, operand bits)")
     V, progs, errors = generate(ctx)
-    broken = ctx.lean_stage(["FAVerif.Props.C10", "FAVerif.Props.C10Total", "FAVerif.Props.C10ScaledTotal", "FAVerif.Props.C10Total2", "FAVerif.Props.C10Total3", "FAVerif.Props.C10Total4", "FAVerif.Props.C10Total5", "FAVerif.Props.C10Total6", "FAVerif.Props.C10Total7"], THEOREMS)
+    broken = ctx.lean_stage(["FAVerif.Props.C10", "FAVerif.Props.C10Total", "FAVerif.Props.C10ScaledTotal", "FAVerif.Props.C10Total2", "FAVerif.Props.C10Total3", "FAVerif.Props.C10Total4", "FAVerif.Props.C10Total5", "FAVerif.Props.C10Total6", "FAVerif.Props.C10Total7", "FAVerif.Props.C10Total8"], THEOREMS)
     # Soft vs machine arithmetic
     n_soft, bad = softcheck.run(ctx, ctx.scale(20000, 400000))
     ctx.obligation(f"softfloat==numpy on {n_soft} directed operations", not bad, kind="validation")
